@@ -1,4 +1,4 @@
 From FV Require Import Common.ExtractTypes Str.StrModel Cmdline.CmdlineModel.
 From Coq Require Extraction.
 From Coq Require Import ExtrOcamlBasic.
-Extraction "../build/extract/cmdline_model.ml" types_witness run_cmdline.
+Extraction "../build/extract/cmdline_model.ml" types_witness run_cmdline run_cmdline_targets.
